@@ -250,6 +250,7 @@ static int child(int w, int row, int persistent, long k, long base) {
     if (!excused) { still++; if (!ex) ex = addr[i]; } }
   if (still > 0) FAIL("os_region_not_unmapped", "%ld blocks obtained outside any arena are still mapped after free + collect (e.g. %p)", still, (void*)ex);
   size_t inuse = 0; for (size_t i = 0; i < mi_atomic_load_relaxed(&mi_arena_count); i++) { mi_arena_t* a = mi_atomic_load_ptr_relaxed(mi_arena_t, &mi_arenas[i]); if (!a) continue; for (size_t b = 0; b < a->block_count; b++) if ((mi_atomic_load_relaxed(&a->blocks_inuse[b / MI_BITMAP_FIELD_BITS]) >> (b % MI_BITMAP_FIELD_BITS)) & 1) inuse++; }
+  if (vm_foreign_unmaps > 0) FAIL("unmap_of_memory_not_owned", "%ld munmap calls covered memory the allocator had not mapped or had already unmapped (first: %p + %zu, of which %zu bytes were its own)", vm_foreign_unmaps, (void*)vm_foreign_addr, vm_foreign_size, vm_foreign_covered);
   if (inuse > 0) FAIL("arena_blocks_still_inuse", "%zu arena blocks still claimed after everything was freed and collected", inuse);
   check_arenas();
   if (getenv("C07_TRACE")) { for (long e = 0; e < vm_nev; e++) printf("EV %ld kind %d addr %zx size %zx arg %d ok %d\n", e, vm_ev[e].kind, (size_t)vm_ev[e].addr, vm_ev[e].size, vm_ev[e].arg, vm_ev[e].ok);
